@@ -158,7 +158,7 @@ def goal_tcdf(gid, v, x, obs, info):
     vs, xs = m2.rlit(v), m2.rlit(x)
     expr = "tcdf %s %s" % (vs, xs)
     prelude = "rewrite (%s %s %s) by (rewrite ?INR_lit; simpl; lra)." % (f["cdf"], vs, xs)
-    rel = Fraction(1, 10 ** 11)
+    rel = Fraction(1, 10 ** 10)
     up = "(atan (%s / sqrt %s))" % (xs, vs)
     integrals = [dict(term="RInt %s 0 %s" % (f["fun"], up), pat="RInt _ 0 %s" % up,
                       ref="cos_int(%s, atan(%s/sqrt(%s)))" % (f["e"], m2.pylit(x), m2.pylit(v)), rel=rel),
